@@ -10,12 +10,12 @@ TT_MAX_N = 4
 
 META = {
     "rule": "cases = every program of the bounded typed grammar (families B bool expressions, I1 integer expressions, "
-            "S statements, T types/builtins, R should-be-rejected constructs; mc/progs.py) x {default,fast} optimizer, translated "
+            "S statements, T types/builtins, R should-be-rejected constructs, M straight-line boolean programs with temporaries; mc/progs.py) x {default,fast} optimizer, translated "
             "by the real qlassf(to_compile=False). Oracle = pyref: CPython executes the same source on exact integers "
             "with width/overflow tracking, for ALL 2^n argument values; exact where no intermediate overflowed, low determined "
             "bits otherwise, undetermined rows only counted. truth_table() is compared on all rows for n <= %d. Non-trivial = "
             "some return bit non-constant and depending on >= 2 input bits; distinct = distinct expected truth tables." % TT_MAX_N,
-    "bound": {"quick": "B <=3 ops; I1 depth 1 over 5 width pairs + depth 2 over reduced leaves (2,2); S, T, R quick lists",
+    "bound": {"quick": "B <=3 ops; I1 depth 1 over 5 width pairs + depth 2 over reduced leaves (2,2); S, T, R quick lists; M 1 260 programs",
               "thorough": "B <=4 ops; I1 depth 2 over more width pairs; S, T, R thorough lists"},
     "assumptions": [
         "CPython's evaluation of the generated source is the meaning of the program; RefInt width rules are the documented ones "
